@@ -128,6 +128,12 @@ def build_small(iface: str, recipe: str, sym: Dict[str, Any]):
         r = M.JSONResponse({"a": [1, "é", None]}, st, headers)
     elif recipe == "redirect":
         r = M.RedirectResponse(sym.get("url", "/x"), st if st != 200 else 307, headers)
+    elif recipe == "append-existing":
+        # a header that is already there gets a second value through append() under a differently cased name (what a subclass
+        # overriding set_response_headers, or a view adding to Vary, does)
+        r = M.PlainTextResponse(b"x", st, {"Vary": "accept-encoding", "x-custom": "1"})
+        r.headers.append("Vary", hv if hv is not None else "origin")
+        r.headers.append("X-Custom", "2")
     elif recipe == "redirect-urlobj":  # the target as a baize URL object (request.url.replace(...)) instead of a str
         r = M.RedirectResponse(DS.URL(sym.get("url", "/x")), st if st != 200 else 307, headers)
     else:
@@ -504,6 +510,8 @@ def jobs(tier: str):
                 out.append(dict(name=f"small/{iface}/{recipe}/header{n}", kind="small", iface=iface, recipe=recipe, what="header", n=n, fault=(n == 1)))
             for n in range(0, min(2, b["text_chars"]) + 1):  # 3 quoted cookie characters exhaust the class-correct placeholder pool (C13/C16 go to 4)
                 out.append(dict(name=f"small/{iface}/{recipe}/cookie{n}", kind="small", iface=iface, recipe=recipe, what="cookie", n=n, weight=5 ** n))
+        for n in (0, 1, 2):
+            out.append(dict(name=f"small/{iface}/append-existing/header{n}", kind="small", iface=iface, recipe="append-existing", what="header", n=n))
         for n in range(0, b["text_chars"] + 1):
             out.append(dict(name=f"small/{iface}/text-bytes/body{n}", kind="small", iface=iface, recipe="text-bytes", what="body", n=n, fault=True))
             out.append(dict(name=f"small/{iface}/text-bytes/body{n}/HEAD", kind="small", iface=iface, recipe="text-bytes", what="body", n=n, method="HEAD"))
